@@ -1,4 +1,4 @@
-import GuppyVerif.Lemmas.C03Top
+import GuppyVerif.Lemmas.C03Shape
 import GuppyVerif.Lemmas.C03Fuel
 /-! # C03 — Classical control and data flow behave as in Python  (partial)
 
@@ -62,6 +62,24 @@ theorem prune_no_edge_into_reachable (bl : List Block) (i : Nat) (hi : i < bl.le
 /-- the set of blocks the builder marks reachable contains the entry and is closed under real edges -/
 theorem reachable_closed (blocks : List Block) (rs : List Nat) (h : reachable blocks = some rs) :
     0 ∈ rs ∧ ∀ b ∈ rs, ∀ s ∈ (blkL blocks b).succs, s ∈ rs := reachable_spec h
+
+/-- **every block with two successors has a branch predicate, and no block has more than two successors**
+    (for every CFG `buildCfg` returns, including its unreachable blocks and after pruning) -/
+theorem two_successors_have_pred (p : Stmt) (rn : Bool) (g : Cfg) (hn : noFor p = true) (hb : buildCfg rn p = .ok g)
+    (i : Nat) : (blkL g.blocks i).succs.length ≤ 2 ∧ ((blkL g.blocks i).succs.length = 2 → (blkL g.blocks i).pred ≠ none) :=
+  buildCfg_shape hn hb i
+
+/-- **`break` / `continue` target the innermost loop**: the body of a `while` is built with the loop's own head
+    as `continue` target and its own tail as `break` target, whatever the enclosing targets `J` are (only the
+    return target is inherited), and `break` / `continue` link the current block to exactly these targets. -/
+theorem break_continue_target_innermost_loop (c : Expr) (body : Stmt) (prev b : Nat) (J : Jumps) (σ : BState) :
+    build (.while c body) prev (some b) J σ =
+      whFin σ.len (build body (σ.len + 1) (some (σ.len + 1)) ⟨J.ret, some σ.len, some (σ.len + 2)⟩ (whS1 c b σ)) ∧
+    (∀ t, J.brk = some t → build .brk prev (some b) J σ = (link b t σ, none)) ∧
+    (∀ t, J.cont = some t → build .cont prev (some b) J σ = (link b t σ, none)) := by
+  refine ⟨build_while_eq c body prev b J σ, ?_, ?_⟩
+  · intro t h; simp only [build, ensure_some, h]
+  · intro t h; simp only [build, ensure_some, h]
 
 /-- building never disturbs other blocks: from an open block `b`, a statement only appends to `b`, creates
     fresh blocks, and adds dummy edges; it continues in `b` or in a fresh block, which is open -/
